@@ -294,3 +294,46 @@ Definition show_cases {A} (f : A -> string) (l : list A) : string :=
                | [x] => f x
                | x :: l => f x ++ ";" ++ go l
                end%string) l.
+
+(** one line per case for the correspondence: "written|read back" *)
+Definition bar (a b : string) : string := (a ++ "|" ++ b)%string.
+
+Definition c_date (o : Z) : string :=
+  bar (show_Z (prepare_date o)) (show_res show_Z (read_date (prepare_date o))).
+Definition c_ymd (x : Z * Z * Z) : string := let '(y, m, d) := x in show_Z (ymd2ord y m d).
+Definition c_time_millis (x : tod) : string :=
+  let '(h, m, s, us) := x in
+  let w := prepare_time_millis h m s us in bar (show_Z w) (show_res show_tod (read_time_millis w)).
+Definition c_time_micros (x : tod) : string :=
+  let '(h, m, s, us) := x in
+  let w := prepare_time_micros h m s us in bar (show_Z w) (show_res show_tod (read_time_micros w)).
+
+(* 0 timestamp-millis  1 timestamp-micros  2 local-timestamp-millis  3 local-timestamp-micros
+   4 timestamp-millis, naive datum, TZ=UTC   5 timestamp-micros, naive datum, TZ=UTC *)
+Definition c_ts (kind t : Z) : string :=
+  let '(w, r) :=
+    if kind =? 0 then (prepare_timestamp_millis t, read_timestamp_millis)
+    else if kind =? 1 then (prepare_timestamp_micros t, read_timestamp_micros)
+    else if kind =? 2 then (prepare_local_timestamp_millis t, read_local_timestamp_millis)
+    else if kind =? 3 then (prepare_local_timestamp_micros t, read_local_timestamp_micros)
+    else if kind =? 4 then (prepare_timestamp_millis_naive_utc t, read_timestamp_millis)
+    else (prepare_timestamp_micros_naive_utc t, read_timestamp_micros) in
+  bar (show_Z w) (show_res show_Z (r w)).
+
+Definition c_read_back (precision scale : Z) (w : res bytes) : string :=
+  match w with Ok bs => show_res show_dec (read_decimal precision scale bs) | _ => "-" end.
+Definition c_dec_bytes (x : Z * Z * bool * list Z * Z) : string :=
+  let '(p, sc, sg, ds, e) := x in
+  let w := write_bytes_decimal p sc sg ds e in
+  bar (show_res show_hexbytes w) (c_read_back p sc w).
+Definition c_dec_fixed (repaired : bool) (x : Z * Z * Z * bool * list Z * Z) : string :=
+  let '(p, sc, size, sg, ds, e) := x in
+  let w := write_fixed_decimal_gen repaired p sc size sg ds e in
+  bar (show_res show_hexbytes w) (c_read_back p sc w).
+(* the converter alone, without write_fixed's length check *)
+Definition c_prep_fixed (repaired : bool) (x : Z * Z * Z * bool * list Z * Z) : string :=
+  let '(p, sc, size, sg, ds, e) := x in
+  show_res show_hexbytes (prepare_fixed_decimal_gen repaired p sc size sg ds e).
+Definition c_read_dec (x : Z * Z * bytes) : string :=
+  let '(p, sc, bs) := x in show_res show_dec (read_decimal p sc bs).
+Definition c_uuid (n : Z) : string := bar (uuid_str n) (show_Z (uuid_parse (uuid_str n))).
